@@ -225,6 +225,8 @@ func (ps *parser) expr(minPrec int) Expr {
 		return &LetE{name.text, val, body}
 	}
 	lhs := ps.unary()
+	var lastCmpRoot Expr
+	var lastCmp *Binary // most recent comparison built in this loop: a <= b < c chains
 	for {
 		t := ps.peek()
 		var op string
@@ -251,7 +253,19 @@ func (ps *parser) expr(minPrec int) Expr {
 			lhs = &Binary{op, lhs, rhs}
 		default:
 			rhs := ps.expr(prec + 1)
-			lhs = &Binary{op, lhs, rhs}
+			if prec == 6 && op != "in" && lastCmp != nil && lhs == lastCmpRoot {
+				nc := &Binary{op, lastCmp.Y, rhs}
+				lhs = &Binary{"&&", lhs, nc}
+				lastCmp, lastCmpRoot = nc, lhs
+				continue
+			}
+			nb := &Binary{op, lhs, rhs}
+			lhs = nb
+			if prec == 6 && op != "in" {
+				lastCmp, lastCmpRoot = nb, lhs
+			} else {
+				lastCmp, lastCmpRoot = nil, nil
+			}
 		}
 	}
 	return lhs
@@ -483,4 +497,53 @@ func exprString(e Expr) string {
 		return "(let " + e.Name + " == " + exprString(e.Val) + " :: " + exprString(e.Body) + ")"
 	}
 	return fmt.Sprintf("%v", e)
+}
+
+// mentionsTrace reports whether e uses called/res/arg/before (facts about a function's own call trace).
+func mentionsTrace(e Expr) bool {
+	found := false
+	var walk func(Expr)
+	walk = func(e Expr) {
+		switch n := e.(type) {
+		case *Unary:
+			walk(n.X)
+		case *Binary:
+			walk(n.X)
+			walk(n.Y)
+		case *CondE:
+			walk(n.C)
+			walk(n.A)
+			walk(n.B)
+		case *CallE:
+			switch n.Fun {
+			case "called", "res", "arg", "before":
+				found = true
+			}
+			for _, a := range n.Args {
+				walk(a)
+			}
+		case *IndexE:
+			walk(n.X)
+			walk(n.I)
+		case *SliceE:
+			walk(n.X)
+			if n.Lo != nil {
+				walk(n.Lo)
+			}
+			if n.Hi != nil {
+				walk(n.Hi)
+			}
+		case *SelE:
+			walk(n.X)
+		case *Quant:
+			walk(n.Body)
+		case *TypeAssertE:
+			walk(n.X)
+		case *LetE:
+			walk(n.Val)
+			walk(n.Body)
+		}
+	}
+	walk(e)
+	return found
 }
